@@ -4,11 +4,20 @@ use crate::subject::problems::{so, TagP};
 use mahf::state::common::Populations;
 use mahf::{Component, ExecResult, Individual, Problem, State};
 
+thread_local! {
+    /// while set, `state_with` hands out mahf's default generator with this seed instead of the scripted one
+    /// (for subjects that may move random draws to other threads, where no explorer context exists)
+    pub static REAL_RNG: std::cell::Cell<Option<u64>> = const { std::cell::Cell::new(None) };
+}
+
 /// State with a scripted generator and the given populations (bottom first).
 pub fn state_with<P: Problem>(pops: Vec<Vec<Individual<P>>>) -> State<'static, P> {
     let mut st: State<'static, P> = State::new();
     st.insert(mahf::logging::Log::new());
-    st.insert(scripted_random(0));
+    match REAL_RNG.with(|c| c.get()) {
+        Some(seed) => st.insert(mahf::Random::new(seed)),
+        None => st.insert(scripted_random(0)),
+    };
     let mut p = Populations::<P>::new();
     for x in pops {
         p.push(x);
